@@ -88,7 +88,7 @@ func c03Plan(seed int64, tier string) []core.Case {
 func c03Run(c core.Case) *core.Result {
 	r := core.NewResult()
 	rng := c.Rng()
-	f := gen.RandFile(rng, gen.FileOpts{MaxBlocks: 14, SmallOnly: true, ExtraField: false})
+	f := gen.RandFile(rng, gen.FileOpts{MaxBlocks: 14, SmallOnly: true, ExtraField: false, MaxMember: true})
 	rd := c.Int("rd")
 	kind, capn := c.Int("kind"), c.Int("cap")
 	class := "A"
